@@ -46,6 +46,9 @@ type Case struct {
 	Ops      []int   `json:"reference_ops,omitempty"`
 	File     []int   `json:"file_level_paths,omitempty"`
 	Sessions [][]int `json:"tracker_sessions_in_one_fresh_process,omitempty"`
+	// reflect-based references (PkgExposeOf / PkgExposeFor)
+	Expose       string `json:"reflect_based_reference,omitempty"`
+	ExposeTarget string `json:"rendered_into_a_file_of,omitempty"`
 }
 
 func validName(n string) bool { return token.IsIdentifier(n) && n != "_" }
@@ -548,6 +551,10 @@ func run(c *core.Ctx) {
 	}
 	c.Bound("segment_alphabet", alpha)
 	c.Bound("max_segments", 3)
+	if c.Next() {
+		checkExposeOf(c)
+	}
+	c.Bound("reflect_based_references", "PkgExposeOf / PkgExposeFor of a plain type, of generic instantiations whose arguments come from a package with a dotted directory name, and of a type of that package; rendered into a file of another package, of the generic's package and of the dotted package")
 	core.Explore(c, core.ExploreOpts{Bound: -1}, func(ch *core.Chooser, _ bool) {
 		var parts []string
 		for i := 0; i < 3; i++ {
@@ -621,6 +628,8 @@ func replay(c *core.Ctx, raw json.RawMessage) {
 		return
 	}
 	switch {
+	case cs.Expose != "":
+		checkExposeOf(c)
 	case len(cs.Sessions) > 0:
 		checkSessions(c, cs.Sessions)
 	case cs.Path != "":
